@@ -12,6 +12,10 @@ CLAIMED = {
    text="Kernel-checked theorems: BS (3 conventions), PS, WP, PR unitary over any commutative ring with conjugation and, instantiated at C=R×R, for every real angle; PERM unitary with u[p k,k]=1 for every size; the range wrap lands in range and moves by whole ranges, and whole ranges leave every matrix unchanged. The hand-written model is tied to /repo on every run by a correspondence stream (numeric and symbolic matrices, far out-of-range values, permutations, _check_value, bound parameters/expressions) evaluated by the extracted model.",
    note="Axioms: the three Coq.Reals axioms (sig_forall_dec, sig_not_dec, functional_extensionality_dep) for the real-angle and periodicity theorems; all other theorems closed.",
    tech="Coq proof (generic ring + Reals instance) + extracted-model differential correspondence"),
+ "C15": dict(cat="proof", ref="DESIGN.md §7 C15",
+   text="Kernel-checked theorems about a field-level Gallina model of perceval/serialization (every hand-written serialise/deserialise pair with its sentinels: VALUE_NOT_SET, `or None`, `if x:` tests, default names, the known_params name table incl. `params or dict()`): for every well-formed value of every supported type, lists/dicts of them to any depth and every compress setting, decode(encode v) succeeds and equals the expected image of v (roundtrip_value, by nested structural induction; circuits to any nesting depth with parameter identities through the name table; experiments field by field incl. non-zero filter, heralds, ports, detectors, noise, post-selection, input); text numbers land within 0.5e-6 of the original (simple_float model); BSSamples index table, matrices, noise, detectors, ports exact. Eleven `_refuted` witnesses (vm_compute) show where the faithful model of the current code loses information; each replays on /repo and is an open finding. The model is tied to /repo on every run: the protobuf/text form is dumped field by field and compared with the model's wire form, the deserialised object with the model's decoded value, and the round trip with the original under the statement's equivalence, over generated values of every type, compress default/True/False/tag-list, binary and file entry points.",
+   note="All theorems closed under the global context. protobuf, zlib, base64, json and the native state/post-selection parsers are outside the model (exercised by the correspondence stream). Feed-forward configurators are not modelled.",
+   tech="Coq proof (structural induction over the value AST) + extracted-model differential correspondence"),
  "C01": dict(cat="proof", ref="DESIGN.md §7 C01",
    text="Kernel-checked theorems over any commutative ring, any nesting depth, offsets and mode count: the circuit matrix equals the ordered product of the leaves' matrices embedded at their absolute ranges (cmat_flatten), is unitary when the leaves are, merge = nest, barriers are neutral, add rejects exactly misfitting ranges. The model's construction semantics (add/merge/nest, //, @, barrier, copy) is tied to /repo by running random straight-line programs over named circuit variables on both sides and comparing every variable's matrix and component listing after every statement.",
    note="All theorems closed under the global context.",
